@@ -342,31 +342,18 @@ Proof.
     pose proof (sem_cols _ _ _ _ Ea) as Cna. pose proof (sem_cols _ _ _ _ Eb) as Cnb.
     pose proof (sem_rows_width _ _ _ _ Ea) as Wa'. pose proof (sem_rows_width _ _ _ _ Eb) as Wb'.
     inversion S; subst t'. cbn [f_join_null_match fl_pandas].
-    pose proof (proj2 (proj2 (G3 CJoinKeyNames))) as GN. cbn [step_guard] in GN. apply (proj1 (eqb_true _ _)) in GN. subst on_b.
-    pose proof (proj2 (proj2 (G3 CNullJoinKey))) as GK. cbn [step_guard] in GK. apply negb_true_iff in GK.
-    pose proof (proj2 (proj2 (G3 CJoinKeyRepr))) as GR. cbn [step_guard] in GR.
-    rewrite (sem_join_nm on_a on_a jt ta' tb').
-    2:{ intros ra rb Ia Ib. unfold keys_match. cbn [orb].
-        destruct (existsb is_null (key_of (cols ta') on_a ra)) eqn:En; [|reflexivity]. cbn [negb andb].
-        destruct (keys_eqv (key_of (cols ta') on_a ra) (key_of (cols tb') on_a rb)) eqn:Ek; [|reflexivity]. exfalso.
-        assert (existsb (fun ra0 => existsb is_null (key_of (cols ta') on_a ra0) &&
-                  existsb (fun rb0 => keys_eqv (key_of (cols ta') on_a ra0) (key_of (cols tb') on_a rb0)) (rows tb')) (rows ta') = true); [|congruence].
-        apply existsb_exists. exists ra. split; [exact Ia|]. rewrite En. cbn [andb]. apply existsb_exists. exists rb. auto. }
+    pose proof (proj2 (proj2 (G3 CJoinKeyed))) as GN. cbn [step_guard] in GN.
+    assert (on_a <> []) as NE by (destruct on_a; [discriminate|discriminate]).
     cbn [column_names] in H. rewrite <- Cna, <- Cnb, <- Ca, <- Cb in H.
-    destruct (join_step_perm _ on_a jt ta tb t (conj NDa Wa) (conj NDb Wb) eq_refl) as [C2 P2]; [|exact H|].
-    + intros _ ra rb Ia Ib E. rewrite forallb_forall in GR.
-      assert (In ra (rows ta')) as Ia' by (eapply Permutation_in; eassumption).
-      assert (In rb (rows tb')) as Ib' by (eapply Permutation_in; eassumption).
-      specialize (GR ra Ia'). rewrite forallb_forall in GR. specialize (GR rb Ib'). rewrite <- Ca, <- Cb in GR.
-      rewrite E in GR. cbn [negb orb] in GR. apply (proj1 (eqb_true _ _)) in GR. exact GR.
-    + assert (cols t = cols (sem_join false on_a on_a jt ta' tb')) as CC by (rewrite C2; cbn [sem_join cols]; rewrite Ca, Cb; reflexivity).
-      assert (Permutation (rows t) (rows (sem_join false on_a on_a jt ta' tb'))) as PP.
-      { eapply perm_trans; [exact P2|]. apply join_perm; assumption. }
-      split; [split|split; [exact CC|split; [exact PP|]]].
-      * rewrite C2. apply NoDup_join_cols; assumption.
-      * eapply width_perm; [exact CC|exact PP|apply width_join].
-      * intros c I. cbn [column_names] in I. apply in_app_iff in I. destruct I as [I|I]; [apply Ua; exact I|].
-        apply filter_In in I. apply Ub. tauto.
+    destruct (join_step_perm _ on_a on_b jt ta tb t (conj NDa Wa) (conj NDb Wb) NE eq_refl H) as [C2 P2].
+    assert (cols t = cols (sem_join false on_a on_b jt ta' tb')) as CC by (rewrite C2; cbn [sem_join cols]; rewrite Ca, Cb; reflexivity).
+    assert (Permutation (rows t) (rows (sem_join false on_a on_b jt ta' tb'))) as PP.
+    { eapply perm_trans; [exact P2|]. apply join_perm; assumption. }
+    split; [split|split; [exact CC|split; [exact PP|]]].
+    + rewrite C2. apply NoDup_join_cols; assumption.
+    + eapply width_perm; [exact CC|exact PP|apply width_join].
+    + intros c I. cbn [column_names] in I. apply in_app_iff in I. destruct I as [I|I]; [apply Ua; exact I|].
+      apply filter_In in I. apply Ub. tauto.
   - (* concat_rows *)
     cbn [plexec] in H. apply rbind_ok in H. destruct H as [ta [Ha H]]. apply rbind_ok in H. destruct H as [tb [Hb H]].
     cbn [sem_gen] in S. destruct (sem_gen fl_pandas a e) as [ta'|] eqn:Ea; [|discriminate]. destruct (sem_gen fl_pandas b e) as [tb'|] eqn:Eb; [|discriminate].
